@@ -777,12 +777,18 @@ def shr(info, a, b):
     return e
 
 def shrd_cl(info, a, b):
+    return shrd(info, a, b, ecx)
+
+def shrd(info, a, b, c):
     e= []
-    shifter = ExprOp('&',ecx, ExprInt_from(b, 0x1f))
-    c = ExprOp('|',
+    # the count is taken modulo 32, as in shld; all the arithmetic on
+    # the count is done in the width of the count
+    shifter = ExprOp('&', c, ExprInt_from(c, 0x1f))
+
+    d = ExprOp('|',
                 ExprOp('>>', a, shifter),
                 ExprOp('<<', b, ExprOp('-',
-                                        ExprInt_from(a, a.get_size()),
+                                        ExprInt_from(c, a.get_size()),
                                         shifter)
                                         )
               )
@@ -793,44 +799,10 @@ def shrd_cl(info, a, b):
                            a,
                            ExprOp('-',
                                   shifter,
-                                  ExprInt_from(b, 1)
+                                  ExprInt_from(c, 1)
                                   )
                            )
                     )
-    e.append(ExprAff(cf, ExprCond(shifter,
-                                  new_cf,
-                                  cf)
-                     )
-             )
-    e.append(ExprAff(of, get_op_msb(a)))
-    e+=update_flag_znp(c)
-    e.append(ExprAff(a, c))
-    return e
-
-def shrd(info, a, b, c):
-    e= []
-    # the count is taken modulo 32, as in shrd_cl / shld
-    shifter = ExprOp('&', c, ExprInt_from(c, 0x1f))
-
-    d = ExprOp('|',
-                ExprOp('>>', a, shifter),
-                ExprOp('<<', b, ExprOp('-',
-                                        ExprInt_from(a, a.get_size()),
-                                        shifter)
-                                        )
-              )
-
-    new_cf = ExprAff(cf, ExprOp('&',
-                                ExprInt_from(a, 1),
-                                ExprOp('>>',
-                                       a,
-                                       ExprOp('-',
-                                              shifter,
-                                              ExprInt_from(b, 1)
-                                              )
-                                       )
-                                )
-                     )
     e.append(ExprAff(cf, ExprCond(shifter,
                                   new_cf,
                                   cf)
@@ -869,11 +841,13 @@ def shld_cl(info, a, b):
 
 def shld(info, a, b, c):
     e= []
-    shifter = ExprOp('&',c, ExprInt_from(a, 0x1f))
+    # all the arithmetic on the count is done in the width of the count
+    size = ExprInt_from(c, a.get_size())
+    shifter = ExprOp('&',c, ExprInt_from(c, 0x1f))
     c = ExprOp('|',
             ExprOp('<<', a, shifter),
             ExprOp('>>', b, ExprOp('-',
-                                    ExprInt_from(a, a.get_size()),
+                                    size,
                                     shifter)
                                     )
           )
@@ -883,7 +857,7 @@ def shld(info, a, b, c):
                     ExprOp('>>',
                            a,
                            ExprOp('-',
-                                  ExprInt_from(b, a.get_size()),
+                                  size,
                                   shifter
                                   )
                            )
@@ -895,7 +869,7 @@ def shld(info, a, b, c):
              )
     # XXX todo: don't update flag if shifter is 0
     e+=update_flag_znp(c)
-    e.append(ExprAff(of, ExprOp('^', get_op_msb(c), new_cf)))
+    e.append(ExprAff(of, ExprOp('^', get_op_msb(c), new_cf[0:1])))
     e.append(ExprAff(a, ExprCond(shifter,
                                  c,
                                  a)))
